@@ -10,37 +10,66 @@ typed corpus:
      omitted; defaults given explicitly; empty slots; `call(name, args, kwargs)`; receiver form for
      methods - and must give the same finalised result or the same error class;
  (B) tie to the model: for every spelling `fd.map_args` / `fd.get_delegate` on the real definition
-     against `Yaql.Resolve.mapArgs` / `getDelegate` on its encoding: same mapping, same bound vector."""
+     against `Yaql.Resolve.mapArgs` / `getDelegate` on its encoding: same mapping, same bound vector.
+
+The naming convention is a dimension of the sweep: worker interpreters (harness/c12_worker.py) create contexts
+with CamelCaseConvention, PythonConvention and without a convention in several orders (camel first, python
+first, none first, re-created) and run (A) in each of them with the keyword names THAT convention promises
+(`gens.registry.promised_kw`: the rule transcribed in Python + aliases read from the source text);
+`Gen/RegistryConv.lean` + `C12Gen.alias_convention_each` prove the same about the dumped tables.
+
+`call(name, args, kwargs)`: every plain tuple also goes through `call` in several spellings, with keys added to
+kwargs that are no keywords (must not change the outcome), and `Yaql.Naming` (is_keyword, filter_parameters_dict,
+call_func's hand-over, convert_*_name, get_function_definition's names/aliases) is tied to the real functions."""
 import datetime
 import itertools
 import json
+import os
 import re
 import signal
+import subprocess
+import sys
 
 import common
 import pyfacts
 import resolvelib as rl
 import values
 import yaql
-from yaql.language import contexts, exceptions, expressions, factory, specs, utils, yaqltypes
+from yaql.language import contexts, conventions, exceptions, expressions, factory, specs, utils, yaqltypes
+from yaql.standard_library import system as std_system
+import gens.registry as greg
 
 ID = 'C12'
-LEAN_MODULES = ['Yaql.Props.C12', 'Yaql.Props.C12Gen']
+LEAN_MODULES = ['Yaql.Props.C12', 'Yaql.Props.C12Naming', 'Yaql.Props.C12Gen', 'Yaql.Props.C12Args']
 REQUIRED_THEOREMS = ['Yaql.Props.C12.call_equiv', 'Yaql.Props.C12.ext_both_ways', 'Yaql.Props.C12.kind_exclusive',
                      'Yaql.Props.C12.spelling_kw_move', 'Yaql.Props.C12.spelling_default_move',
                      'Yaql.Props.C12.movesOk_spec', 'Yaql.Props.C12Gen.registry_wf',
-                     'Yaql.Props.C12Gen.registry_moves_ok', 'Yaql.Props.C12Gen.alias_convention']
-TRUSTED = ['harness/gens/registry.py (the dump of the live registry)',
-           'the typed value corpus and the canonicalisation of results (harness/values.py)']
+                     'Yaql.Props.C12Gen.registry_moves_ok', 'Yaql.Props.C12Gen.alias_convention',
+                     'Yaql.Props.C12Args.arglist_grammar', 'Yaql.Props.C12Args.arglist_only_shaped',
+                     'Yaql.Props.C12Args.argsOK_iff_shape',
+                     'Yaql.Props.C12Gen.alias_convention_each', 'Yaql.Props.C12Gen.keyword_names_are_keywords',
+                     'Yaql.Props.C12Gen.registered_names_converted', 'Yaql.Props.C12.call_filter_nonkeywords',
+                     'Yaql.Props.C12.call_resolver_input', 'Yaql.Props.C12.camel_of_python',
+                     'Yaql.Props.C12.toCamel_fixed', 'Yaql.Props.C12.toCamel_idempotent',
+                     'Yaql.Props.C12.call_junk_invariant', 'Yaql.Props.C12.call_nonstring_key_dropped']
+TRUSTED = ['harness/gens/registry.py (the dump of the live registry; the reading of decorators from the source text with ast)',
+           'the typed value corpus and the canonicalisation of results (harness/values.py)',
+           'harness/c12_worker.py (contexts created in the stated order before anything else in that interpreter)']
 ASSUMPTIONS = ['spelling_equiv is proved one parameter at a time (positional <-> keyword, default omitted <-> explicit); the '
                'whole-vector statement spelling_equiv_full is kept as a def',
                'smart types outside the closed description (AnyOf, Chain, NotOfType, DateTime..) are encoded for the model as '
                'PythonType(object) with one synthetic validator = their real check()',
-               'parser-level spellings (arglist grammar) belong to the parser group']
+               'parser-level spellings (arglist grammar) belong to the parser group',
+               'names are ASCII (the generator refuses others), so \\w / isalpha / upper of the naming model are the ASCII ones',
+               'a context without a convention passes parameters under their python names as they are (doc-silent; modelled '
+               'as implemented; the oracle does not test trailing-underscore names there)',
+               'is_keyword is a prefix test (re.match): a key like "a b" counts as a keyword (modelled as implemented; the '
+               'oracle adds only keys that are no keywords under any reading)']
 
 
 def generate():
-    return pyfacts.run(['Registry'])['Registry']
+    info = pyfacts.run(['Registry', 'RegistryConv'])
+    return dict(info['Registry'], conv=info['RegistryConv'])
 
 
 ENGINE = factory.YaqlFactory().create(options={'yaql.limitIterators': 200, 'yaql.memoryQuota': 5000000})
@@ -104,11 +133,7 @@ try:
 except ImportError:             # the module lives at yaql/yaqlization.py
     from yaql import yaqlization as _yz
 _YOBJ = _yz.yaqlize(_Yaqlized())
-_CTX_VALUE = yaql.create_context().create_child_context()
-
-
-def root_context():
-    return yaql.create_context()
+_CTX_VALUE = None           # a context as a VALUE of the corpus: a child of the context under test (set by sweep_context)
 
 
 def candidates(p, ctx):
@@ -188,18 +213,20 @@ def is_plain(label):
     return not (label.startswith('e:') or label.startswith('c:') or label.startswith('kw:') or label.startswith('m:'))
 
 
-def documented_name(fd, p):
-    """the keyword name the documentation promises: the explicit alias, else the convention translation of the
-    python parameter name (trailing underscores stripped, snake_case -> camelCase) - computed here, not read
-    from the definition"""
-    import gens.registry as greg
-    if greg.explicit_alias(fd, p):
-        return p.alias
-    n = p.name.rstrip('_')
-    return re.sub(r'(?!^)_(\w)', lambda m: m.group(1).upper(), n)
+def documented_name(fd, p, conv='camel'):
+    """the keyword name a context with convention `conv` promises: the alias written in the decorator's source text,
+    else the convention translation of the python parameter name (camel: trailing underscores stripped,
+    snake_case -> camelCase; python: trailing underscores stripped; none: the python name) - computed by the
+    transcription in gens/registry.py, never read from the definition"""
+    decl = greg.declared_alias(fd, p)
+    if conv == 'none' and decl is None and p.name.endswith('_'):
+        # doc-silent: without a convention nothing says whether `from_` is passed as `from_` (what happens: the
+        # alias stays empty) or as `from` (what convert_parameter_name(name, None) would give): no promise to test
+        return p.alias or p.name
+    return greg.promised_kw(conv, decl, p.name)
 
 
-def spellings(fd, vis, kwonly, choice):
+def spellings(fd, vis, kwonly, choice, conv='camel'):
     """choice: {param name -> (label, factory) or None (= use the default)} -> [(tag, receiver_index|None,
     [factory|NO_VALUE ...], {kw: factory})]"""
     n = len(vis)
@@ -222,10 +249,10 @@ def spellings(fd, vis, kwonly, choice):
                 args.pop()
             out.append(('split@%d' % k, None, args, kw))
         # all keywords under their documented names
-        kw = {documented_name(fd, p): choice[p.name][1] for p in kwonly if choice[p.name] is not None}
+        kw = {documented_name(fd, p, conv): choice[p.name][1] for p in kwonly if choice[p.name] is not None}
         for i in range(last + 1):
             if given[i]:
-                kw[documented_name(fd, vis[i])] = choice[vis[i].name][1]
+                kw[documented_name(fd, vis[i], conv)] = choice[vis[i].name][1]
         out.append(('documented-names', None, [], kw))
     # defaults given explicitly (eager parameters): the value the parameter would get anyway
     expl = []
@@ -378,36 +405,87 @@ def describe_model(s, objs, tags, probes):
     return ['other']
 
 
-def run(env, res):
-    drv = env['driver']
-    tier = env['tier']
-    rng = common.make_rng(env['seed'], 'C12')
-    per_fd = 60 if tier == 'quick' else 400
-    import gens.registry as greg
-    root = root_context()
+class Sink:
+    """where a sweep reports to: a common.Result (main interpreter) or plain lists (worker)"""
+
+    def __init__(self, res=None):
+        self.res = res
+        self.hist = {}
+        self.cases = []
+        self.fails = []
+        self.per_key = {}
+
+    def bump(self, k, n=1):
+        self.hist[k] = self.hist.get(k, 0) + n
+
+    def case(self, sig, nontrivial, sample=None):
+        if self.res is not None:
+            self.res.case(sig, nontrivial, sample=sample if self.res.evaluations < 3 else None)
+        else:
+            self.cases.append([sig, bool(nontrivial)])
+
+    def fail(self, kind, key, what, replay):
+        self.per_key[key] = self.per_key.get(key, 0) + 1
+        if self.per_key[key] > 3:           # the same finding over and over must not crowd out the others
+            return
+        if self.res is not None:
+            self.res.fail(kind, key, what, replay)
+        else:
+            self.fails.append([kind, key, what, replay])
+
+
+# keys of a kwargs dict that are no keywords under ANY reading (not an identifier, or a dunder name): call() has to
+# behave as if they were not there
+JUNK_STR = ['', '__x', '__', '__init__', '1a', '0', ' a', '-x', '=>', '#len', '$', '.', '\n', '1_000']
+# not even strings (dropped like the others since d6863d4; before, is_keyword raised TypeError on them)
+JUNK_OTHER = [('int', lambda: 1), ('none', lambda: None), ('true', lambda: True), ('tuple', lambda: (1, 2)),
+              ('float', lambda: 1.5)]
+# names that ARE keywords: a function with **kwargs must see them through call() as it sees them directly
+EXTRA_KW = ['_x', 'x1', 'X', 'a_b_', 'zzTop', 'x__y']
+
+NOT_RESOLVED = ('err:NoMatchingFunctionException', 'err:NoMatchingMethodException', 'err:AmbiguousFunctionException',
+                'err:NoFunctionRegisteredException', 'err:NoMethodRegisteredException', 'err:AmbiguousMethodException')
+
+
+def junk_sets(rng, kwnames):
+    """-> [(tag, [(key factory label, key)] to put first, same to put last)]: string keys that are no keywords,
+    some derived from the real keyword names of the call"""
+    derived = ['__' + k for k in kwnames[:2]] + ['1' + k for k in kwnames[:1]] + [' ' + k for k in kwnames[:1]]
+    pool = JUNK_STR + derived
+    out = []
+    k = rng.choice(pool)
+    out.append(('junk-first', [k], []))
+    k = rng.choice(pool)
+    out.append(('junk-last', [], [k]))
+    ks = rng.sample(pool, min(len(pool), rng.randrange(2, 5)))
+    if rng.random() < 0.3:              # keys that are not even strings, among the others
+        ks.insert(rng.randrange(len(ks) + 1), rng.choice(JUNK_OTHER)[1])
+    cut = rng.randrange(len(ks) + 1)
+    out.append(('junk-many', ks[:cut], ks[cut:]))
+    return out
+
+
+def sweep_context(conv, root, rng, per_fd, sink, replay=None, model_reqs=None, where=None, call_budget=3):
+    """(A) over every definition of the context `root`, whose naming convention is `conv`"""
+    global _CTX_VALUE
     defs = greg.all_definitions(root)
     ctx = root.create_child_context()
     ctx['$'] = (1, 2, 3)
-    res.rule = ('every registered definition x argument tuples from a typed corpus (values that pass the parameter\'s own '
-                'check; each defaulted parameter given or left out) x spellings (all positional, every positional/keyword '
-                'split, explicit defaults, call(), method form); distinct = (definition, tuple); non-trivial = at least two '
-                'spellings and the positional spelling resolves')
-    hist = {}
-
-    def bump(k, n=1):
-        hist[k] = hist.get(k, 0) + n
-    replay = json.load(open(env['replay']))['case'] if env['replay'] else None
-    model_reqs = []
+    _CTX_VALUE = root.create_child_context()
+    bump = sink.bump
+    names_count = {}
+    for _, n2, _ in defs:
+        names_count[n2] = names_count.get(n2, 0) + 1
+    rbase = rng.random()
     for di, (li, name, fd) in enumerate(defs):
-        if replay and replay['def'] != di:
+        if replay and replay.get('def') != di:
             continue
-        if name in NONDETERMINISTIC:
+        rng = common.make_rng(rbase, 'def/%d' % di)       # per definition, so that a replay draws the same tuples
+        if fd.payload.__name__ in ('now', 'random', 'random__', 'random_', 'random_int') or name in NONDETERMINISTIC:
             bump('skipped-nondeterministic')
             continue
         vis, kwonly = visible_params(fd)
         cands = {p.name: candidates(p, ctx) for p in vis + kwonly}
-        has_lazy = any(isinstance(p.value_type, (yaqltypes.LazyParameterType, yaqltypes.Constant))
-                       for p in vis + kwonly)
         bump('definitions')
         if any(not cands[p.name] and p.default is specs.NO_DEFAULT for p in vis + kwonly):
             bump('no-corpus-value')
@@ -426,13 +504,16 @@ def run(env, res):
         for ch in sorted(tuples, key=repr):
             if replay and list(ch) != replay['choice']:
                 continue
+            crng = common.make_rng(rbase, 'case/%d/%r' % (di, ch))
             choice = {p.name: (None if c is None else cands[p.name][c]) for p, c in zip(vis + kwonly, ch)}
             labels = {p.name: (None if c is None else cands[p.name][c][0]) for p, c in zip(vis + kwonly, ch)}
-            sp = spellings(fd, vis, kwonly, choice)
+            sp = spellings(fd, vis, kwonly, choice, conv)
             if not sp:
                 continue
             case = dict(**{'def': di}, name=name, choice=list(ch), labels=labels,
-                        params=[p.name for p in vis + kwonly])
+                        params=[p.name for p in vis + kwonly], conv=conv)
+            if where:
+                case.update(where)
             only_fd = (lambda f, c, fd=fd: f is fd)
             outs = []       # through the real resolver, overloads restricted to THIS definition
             outs_u = []     # the same through plain name resolution (all overloads of the name)
@@ -447,44 +528,93 @@ def run(env, res):
                     return ctx(name, ENGINE, recv, function_filter=flt)(*args, **kw)
                 outs.append((tag, outcome(lambda: thunk(only_fd))))
                 outs_u.append((tag, outcome(lambda: thunk(None))))
-            # call(name, args, kwargs): only plain values can go through a list / dict; it resolves by name, so it is
-            # comparable when the name has this one definition
-            plain = all(l is None or is_plain(l) for l in labels.values()) and fd.is_function and not fd.no_kwargs \
-                and sum(1 for _, n2, _ in defs if n2 == name) == 1
-            if plain:
-                tag, _, argf, kwf = sp[0]
-                if all(a is not utils.NO_VALUE for a in argf):
-                    def thunk2(argf=argf, kwf=kwf):
-                        args = tuple(a() for a in argf)
-                        kw = utils.FrozenDict({k: f() for k, f in kwf.items()})
-                        return ctx('call', ENGINE)(name, args, kw)
-                    outs.append(('call()', outcome(thunk2)))
             base = outs[0][1]
-            resolved = base not in ('err:NoMatchingFunctionException', 'err:NoMatchingMethodException',
-                                    'err:AmbiguousFunctionException', 'err:NoFunctionRegisteredException',
-                                    'err:NoMethodRegisteredException', 'err:AmbiguousMethodException')
+            # call(name, args, kwargs): only plain values can go through a list / dict.  It resolves by name, so each
+            # spelling is compared with the SAME spelling made directly through name resolution (outs_u)
+            plain = all(l is None or is_plain(l) for l in labels.values()) and fd.is_function and base != 'err:Timeout'
+            call_fail = []
+            if plain:
+                usable = [i for i, (tag, recv_i, argf, kwf) in enumerate(sp)
+                          if recv_i is None and all(a is not utils.NO_VALUE for a in argf) and i < len(outs_u)]
+                picked = usable[:1] + crng.sample(usable[1:], min(len(usable) - 1, call_budget - 1)) if usable else []
+                for i in picked:
+                    tag, _, argf, kwf = sp[i]
+                    direct = outs_u[i][1]
+                    variants = [('call()', [], [])]
+                    variants += junk_sets(crng, list(kwf))[:call_budget]
+                    if crng.random() < 0.5:
+                        lab, mk = crng.choice(JUNK_OTHER)
+                        variants.append(('nonstring:' + lab, [mk], []))
+                    for vtag, first, lastk in variants:
+                        def thunk2(argf=argf, kwf=kwf, first=first, lastk=lastk):
+                            args = tuple(a() for a in argf)
+                            d = {}
+                            for k in first:
+                                d[k() if callable(k) else k] = 0
+                            for k, f in kwf.items():
+                                d[k] = f()
+                            for k in lastk:
+                                d[k() if callable(k) else k] = 0
+                            return ctx('call', ENGINE)(name, args, utils.FrozenDict(d))
+                        o = outcome(thunk2)
+                        stag = '%s/%s' % (tag, vtag)
+                        outs.append((stag, direct))     # counted as a spelling; compared below against `direct`
+                        bump('call:' + vtag.split(':')[0])
+                        if o != direct:
+                            call_fail.append((stag, vtag, direct, o, [k if not callable(k) else '<%r>' % (k(),) for k in first + lastk]))
+                # a function with **kwargs: extra keywords arrive through call() as they arrive directly
+                if '**' in fd.parameters and not fd.no_kwargs and usable:
+                    tag, _, argf, kwf = sp[usable[0]]
+                    for extra in ([EXTRA_KW[:3], EXTRA_KW[3:]] + [crng.sample(EXTRA_KW, 2) for _ in range(2)]):
+                        def args_kw(argf=argf, kwf=kwf, extra=extra):
+                            kw = {k: f() for k, f in kwf.items()}
+                            kw.update({k: 7 for k in extra if k not in kw})
+                            return tuple(a() for a in argf), kw
+
+                        def direct_ss():
+                            a, kw = args_kw()
+                            return ctx(name, ENGINE)(*a, **kw)
+
+                        def call_ss():
+                            a, kw = args_kw()
+                            return ctx('call', ENGINE)(name, a, utils.FrozenDict(kw))
+                        d1, o = outcome(direct_ss), outcome(call_ss)
+                        bump('call:starstar-extra')
+                        outs.append(('starstar/call()', d1))
+                        if o != d1:
+                            call_fail.append(('starstar/call()', 'extra-keywords', d1, o, extra))
+            resolved = base not in NOT_RESOLVED
             bump('tuples')
             bump('spellings', len(outs))
             for tag, o in outs:
-                bump('spelling:' + tag.split('@')[0])
+                bump('spelling:' + ('call()' if '/' in tag else tag.split('@')[0]))
             bump('result:' + ('error' if base.startswith('err:') else 'value'))
-            res.case(common.digest(case), resolved and len(outs) >= 2, sample=case if res.evaluations < 3 else None)
+            sink.case(common.digest(case), resolved and len(outs) >= 2, sample=case)
+            for stag, vtag, direct, o, keys in call_fail:
+                nonstring = vtag.startswith('nonstring:')
+                sink.fail('oracle', 'call-nonstring-key:' + name if nonstring else 'call:' + name,
+                          '[%s context] %s %r spelling %s: made directly -> %s but call(%s, args, kwargs%s) -> %s' % (
+                              conv, name, labels, stag.split('/')[0], direct[:100], name,
+                              ' + keys %r that are no keywords' % (keys,) if keys else '', o[:100]),
+                          dict(case, call=stag, keys=[repr(k) for k in keys]))
             if resolved:
-                diff = [(t, o) for t, o in outs if o != base]
+                diff = [(t, o) for t, o in outs if o != base and '/' not in t]
                 if diff:
-                    res.fail('oracle', 'spelling:' + name,
-                             '%s %r: positional -> %s but %s -> %s' % (name, labels, base[:120], diff[0][0], diff[0][1][:120]),
-                             case)
+                    kws = next((sorted(kwf) for tag, _, _, kwf in sp if tag == diff[0][0]), [])
+                    sink.fail('oracle', 'spelling:' + name,
+                              '[%s context%s] %s %r: positional -> %s but %s (keywords %s) -> %s' % (
+                                  conv, ' #%d of %s' % (where['ctx_index'], '>'.join(where['order'])) if where else '',
+                                  name, labels, base[:120], diff[0][0], ', '.join(kws), diff[0][1][:120]), case)
                 elif outs_u[0][1] == base:
                     # plain name resolution picks this definition positionally; a keyword spelling that then is
                     # AMBIGUOUS (not: answered by another overload that owns these names) contradicts the statement
                     amb = [(t, o) for t, o in outs_u if o.startswith('err:Ambiguous')]
                     if amb:
-                        res.fail('oracle', 'kw-ambiguous:' + name,
-                                 '%s %r: positional -> %s but by keyword (%s) -> %s' % (
-                                     name, labels, base[:80], amb[0][0], amb[0][1]), case)
+                        sink.fail('oracle', 'kw-ambiguous:' + name,
+                                  '[%s context] %s %r: positional -> %s but by keyword (%s) -> %s' % (
+                                      conv, name, labels, base[:80], amb[0][0], amb[0][1]), case)
             # (B) the model on the same spellings, against the real definition's own binding
-            if drv is not None:
+            if model_reqs is not None:
                 calls = []
                 for tag, recv_i, argf, kwf in sp:
                     objs = [a if a is utils.NO_VALUE else a() for a in argf]
@@ -494,7 +624,237 @@ def run(env, res):
                         recv = choice[vis[0].name][1]()
                         objs = [recv] + objs
                     calls.append((tag, recv, objs, kwo))
-                model_reqs.append((di, name, fd, case, calls))
+                model_reqs.append((di, name, fd, case, calls, ctx))
+
+
+# ---- worker interpreters: one per creation order ---------------------------------------------------------------
+
+ORDERS_QUICK = (('camel', 'python', 'none', 'camel', 'python'),
+                ('python', 'camel', 'none', 'python'),
+                ('none', 'python', 'camel', 'none'))
+ORDERS_THOROUGH = ORDERS_QUICK + (('python', 'none', 'camel', 'python', 'camel'), ('none', 'camel', 'python'),
+                                  ('camel', 'none', 'python', 'camel'))
+WORKER = os.path.join(os.path.dirname(os.path.dirname(os.path.abspath(__file__))), 'c12_worker.py')
+
+
+def start_worker(order, seed, per_fd, replay=None):
+    p = subprocess.Popen([sys.executable, '-W', 'ignore', WORKER], stdin=subprocess.PIPE, stdout=subprocess.PIPE,
+                         stderr=subprocess.PIPE, cwd='/tmp')
+    p.stdin.write(json.dumps(dict(order=list(order), seed=seed, per_fd=per_fd, replay=replay)).encode())
+    p.stdin.close()
+    p.stdin = None
+    return p
+
+
+def worker_main(req, ctxs):
+    """runs in harness/c12_worker.py, which has created `ctxs` (one per entry of req['order'], in this order) BEFORE
+    this module - and with it any other context - was imported"""
+    sink = Sink()
+    order = req['order']
+    rp = req.get('replay')
+    for i, (conv, root) in enumerate(zip(order, ctxs)):
+        if rp and rp['ctx_index'] != i:
+            continue
+        rng = common.make_rng(req['seed'], 'C12/%s/%d' % ('>'.join(order), i))
+        before = dict(sink.hist)
+        sweep_context(conv, root, rng, req['per_fd'], sink, replay=rp, where=dict(order=order, ctx_index=i), call_budget=2)
+        sink.bump('context:%s' % conv)
+        sink.bump('tuples:%s#%d-of-%s' % (conv, i, '>'.join(o[0] for o in order)),
+                  sink.hist.get('tuples', 0) - before.get('tuples', 0))
+    return dict(hist=sink.hist, cases=sink.cases, fails=sink.fails)
+
+
+def collect_worker(order, p, sink, res, timeout):
+    try:
+        out, err = p.communicate(timeout=timeout)
+    except subprocess.TimeoutExpired:
+        p.kill()
+        raise RuntimeError('C12 worker %r timed out' % (order,))
+    if p.returncode != 0:
+        raise RuntimeError('C12 worker %r failed: %s' % (order, err.decode()[-600:]))
+    r = json.loads(out.decode())
+    for k, n in r['hist'].items():
+        sink.bump('conv/' + k, n)
+    for sig, nt in r['cases']:
+        res.case(sig, nt)
+    for kind, key, what, rp in r['fails']:
+        sink.fail(kind, key, what, rp)
+
+
+# ---- ties of Yaql.Naming to the real naming / filtering functions --------------------------------------------------
+
+def _conv_obj(c):
+    return {'camel': conventions.CamelCaseConvention, 'python': conventions.PythonConvention}[c]() if c != 'none' else None
+
+
+def gen_name(rng):
+    parts = []
+    for _ in range(rng.randrange(0, 4)):
+        parts.append(rng.choice(['a', 'b', 'key', 'X', 'sel', '1', 'z9', '', 'Q']))
+    s = rng.choice(['', '', '', '_', '__', '#', '#operator_', '#property#', '*', '1', '-'])
+    s += rng.choice(['_', '__', '_', '_', '-', '#'] if rng.random() < 0.25 else ['_']).join(parts)
+    s += rng.choice(['', '', '_', '__', '#', ' '])
+    return s
+
+
+def gen_key(rng):
+    if rng.random() < 0.5:
+        return rng.choice(JUNK_STR + EXTRA_KW + ['a', 'a b', 'a-b', '_', '_1', 'x', 'len', 'sequence', 'A.b', 'q\t'])
+    return ''.join(rng.choice('ab_19 -#.$Z') for _ in range(rng.randrange(0, 5)))
+
+
+class _Rec:
+    """stands in for the context in call_func(context, ..): records what is handed to the resolver"""
+
+    def __call__(self, name, engine, receiver=utils.NO_VALUE):
+        def f(*a, **k):
+            self.got = (a, k)
+        return f
+
+
+def naming_ties(drv, rng, sink, n, defs):
+    names = set()
+    for _, name, fd in defs:
+        names.add(name)
+        names.add(fd.payload.__name__)
+        names.update(p.name for p in fd.parameters.values())
+    names = sorted(names) + [gen_name(rng) for _ in range(n)]
+    names = [x for x in names if all(32 <= ord(ch) < 127 for ch in x)]
+    # (T1) convert_parameter_name / convert_function_name under each convention, fresh convention objects
+    items, real = [], []
+    for nm in names:
+        for c in greg.CONVS:
+            for k, f in (('p', specs.convert_parameter_name), ('f', specs.convert_function_name)):
+                items.append(dict(c=c, k=k, n=nm))
+                try:
+                    real.append(f(nm, _conv_obj(c)))
+                except IndexError:
+                    real.append({'err': 'IndexError'})
+    out = drv.ask(dict(p='C12', op='conv', items=items))['out']
+    for it, r, m in zip(items, real, out):
+        if r != m:
+            sink.fail('mismatch', 'naming:convert', 'convert_%s_name(%r, %s): real %r, model %r' % (
+                'parameter' if it['k'] == 'p' else 'function', it['n'], it['c'], r, m), it)
+    sink.bump('tie:convert-name', len(items))
+    # (T2) is_keyword
+    keys = sorted({gen_key(rng) for _ in range(n * 3)} | set(names))
+    out = drv.ask(dict(p='C12', op='kw', items=keys))['out']
+    for k, m in zip(keys, out):
+        if bool(utils.is_keyword(k)) != m:
+            sink.fail('mismatch', 'naming:is_keyword', 'is_keyword(%r): real %r, model %r' % (k, utils.is_keyword(k), m), k)
+    sink.bump('tie:is_keyword', len(keys))
+    # (T3) what call_func hands to the resolver
+    items, real = [], []
+    for _ in range(n):
+        ks = []
+        for _ in range(rng.randrange(0, 6)):
+            k = gen_key(rng) if rng.random() < 0.93 else rng.choice([1, None, (1, 2), 2.5])
+            if k not in ks:
+                ks.append(k)
+        nargs = rng.randrange(0, 3)
+        items.append(dict(nargs=nargs, kw=[dict(s=k) if isinstance(k, str) else dict(o=i) for i, k in enumerate(ks)]))
+        rec = _Rec()
+        try:
+            std_system.call_func(rec, ENGINE, 'f', tuple(1000 + i for i in range(nargs)),
+                                 utils.FrozenDict((k, i) for i, k in enumerate(ks)))
+            real.append(dict(args=list(rec.got[0]), kw=[[k, v] for k, v in rec.got[1].items()]))
+        except Exception as e:
+            real.append(dict(err=type(e).__name__))
+    out = drv.ask(dict(p='C12', op='filter', items=items))['out']
+    for it, r, m in zip(items, real, out):
+        sink.bump('tie:call-hand-over:' + ('raises' if 'err' in r else 'filters' if len(r['kw']) < len(it['kw']) else 'keeps'))
+        if r != m:
+            sink.fail('mismatch', 'naming:call_func', 'call_func(.., kwargs with keys %r): real hands over %r, model %r' % (
+                it['kw'], r, m), it)
+    # (T4) get_function_definition: the name and the aliases a registration gets, the SAME function registered under
+    # one convention after the other (the model is a function of the declaration alone)
+    items_reg, real_reg, items_al, real_al = [], [], [], []
+    for j in range(n // 4):
+        pnames = []
+        for _ in range(rng.randrange(1, 4)):
+            pn = re.sub(r'[^A-Za-z0-9_]', '', gen_name(rng))
+            if pn and not pn[0].isdigit() and not pn.startswith('__') and pn not in pnames and pn not in (
+                    'context', 'engine', 'yaql_interface'):
+                pnames.append(pn)
+        if not pnames:
+            continue
+        pyname = 'f_' + re.sub(r'[^A-Za-z0-9_]', '', gen_name(rng))
+        ns = {}
+        exec('def %s(%s):\n    return 0\n' % (pyname, ', '.join(pnames)), ns)
+        f = ns[pyname]
+        decl_alias = {}
+        for pn in pnames:
+            al = rng.choice([None, None, None, 'al_' + pn, 'A'])
+            if al in decl_alias.values():
+                al = None
+            decl_alias[pn] = al
+            if al is not None or rng.random() < 0.5:
+                specs.parameter(pn, alias=al)(f)
+        decl_name = rng.choice([None, None, gen_name(rng) or None])
+        if decl_name is not None:
+            specs.name(decl_name)(f)
+        convs = [rng.choice(greg.CONVS) for _ in range(3)]
+        for c in convs:
+            reg_as = rng.choice([None, None, None, gen_name(rng)])
+            items_reg.append(dict(c=c, regAs=reg_as, decl=decl_name, py=pyname))
+            try:
+                fd = specs.get_function_definition(f, name=reg_as, convention=_conv_obj(c))
+            except IndexError:
+                real_reg.append({'err': 'IndexError'})
+                continue
+            real_reg.append(fd.name)
+            for pn in pnames:
+                items_al.append(dict(c=c, decl=decl_alias[pn], n=pn, after=convs))
+                q = fd.parameters[pn]
+                real_al.append(dict(alias=q.alias or None, kw=q.alias or q.name))
+    ascii_ok = lambda it: all(32 <= ord(ch) < 127 for v in it.values() if isinstance(v, str) for ch in v)  # noqa: E731
+    out = drv.ask(dict(p='C12', op='reg', items=items_reg))['out']
+    for it, r, m in zip(items_reg, real_reg, out):
+        if r != m and ascii_ok(it):
+            sink.fail('mismatch', 'naming:registered-name', 'get_function_definition(%r): real name %r, model %r' % (it, r, m), it)
+    out = drv.ask(dict(p='C12', op='alias', items=items_al))['out']
+    for it, r, m in zip(items_al, real_al, out):
+        if r != m:
+            sink.fail('mismatch', 'naming:alias', 'get_function_definition alias %r: real %r, model %r' % (it, r, m), it)
+    sink.bump('tie:registered-name', len(items_reg))
+    sink.bump('tie:alias', len(items_al))
+    return len(items) + len(keys) + len(items_reg) + len(items_al)
+
+
+def run(env, res):
+    drv = env['driver']
+    tier = env['tier']
+    rng = common.make_rng(env['seed'], 'C12')
+    per_fd = 60 if tier == 'quick' else 400
+    per_fd_conv = 10 if tier == 'quick' else 40
+    sink = Sink(res)
+    res.rule = ('every registered definition x argument tuples from a typed corpus (values that pass the parameter\'s own '
+                'check; each defaulted parameter given or left out) x spellings (all positional, every positional/keyword '
+                'split, the names the convention promises, explicit defaults, method form, call() with and without keys '
+                'that are no keywords) x contexts of every naming convention in several creation orders; '
+                'distinct = (context, definition, tuple); non-trivial = at least two spellings and the positional '
+                'spelling resolves')
+    replay = json.load(open(env['replay']))['case'] if env['replay'] else None
+    if replay and 'def' not in replay:
+        replay = None                   # a tie-only finding: run everything
+    # the other conventions and creation orders, in interpreters of their own (started first, collected last)
+    workers = []
+    if replay is None:
+        for order in (ORDERS_QUICK if tier == 'quick' else ORDERS_THOROUGH):
+            workers.append((order, start_worker(order, env['seed'], per_fd_conv)))
+    elif replay.get('order'):
+        workers.append((replay['order'], start_worker(replay['order'], env['seed'], per_fd_conv, replay)))
+    model_reqs = []
+    root = yaql.create_context()
+    defs = greg.all_definitions(root)
+    if replay is None or not replay.get('order'):
+        sweep_context('camel', root, rng, per_fd, sink, replay=replay, model_reqs=model_reqs if drv is not None else None)
+    for order, p in workers:
+        collect_worker(order, p, sink, res, 240 if tier == 'quick' else 1500)
+    hist = sink.hist
+    bump = sink.bump
+    if drv is not None and replay is None:
+        res.traces += naming_ties(drv, common.make_rng(env['seed'], 'C12/naming'), sink, 300 if tier == 'quick' else 3000, defs)
     # ---- (B)
     if drv is not None:
         nb = 0
@@ -502,7 +862,7 @@ def run(env, res):
 
         def encode_chunk(chunk):
             encs, metas = [], []
-            for di, name, fd, case, calls in chunk:
+            for di, name, fd, case, calls, ctx in chunk:
                 pr = rl.Probes()
                 ecalls, cm = [], []
                 for tag, recv, objs, kwo in calls:
@@ -533,17 +893,17 @@ def run(env, res):
             req = dict(p='Resolve', op='bind', defs=encs)
             req['lat'] = rl.T.lattice()
             out = drv.ask(req)['out']
-            for (di, name, fd, case, calls), mres, cm in zip(chunk, out, metas):
+            for (di, name, fd, case, calls, ctx), mres, cm in zip(chunk, out, metas):
                 for (tag, recv, objs, kwo), m, (allobjs, tags, probes) in zip(calls, mres, cm):
                     rmap, rbound = real_bind(fd, objs, kwo, ctx, recv)
                     nb += 1
                     mmap = None if m['map'] is None else dict(pos=m['map']['pos'], kwd=sorted(m['map']['kwd']))
                     if mmap != rmap:
-                        res.fail('mismatch', 'map_args:' + name, '%s %s spelling %s: real map_args %r, model %r' % (
+                        sink.fail('mismatch', 'map_args:' + name, '%s %s spelling %s: real map_args %r, model %r' % (
                             name, case['labels'], tag, rmap, mmap), case)
                         continue
                     if (m['del'] is None) != (rbound is None):
-                        res.fail('mismatch', 'get_delegate:' + name, '%s %s spelling %s: real get_delegate %s, model %s' % (
+                        sink.fail('mismatch', 'get_delegate:' + name, '%s %s spelling %s: real get_delegate %s, model %s' % (
                             name, case['labels'], tag, 'fails' if rbound is None else 'binds',
                             'fails' if m['del'] is None else 'binds'), case)
                         continue
@@ -561,20 +921,31 @@ def run(env, res):
                     same = len(real_pos) == len(mod_pos) and all(eq(r, mm, pv) for r, mm, pv in zip(real_pos, mod_pos, rpos)) \
                         and set(real_kw) == set(mod_kw) and all(eq(real_kw[k], mod_kw[k], rkw[k]) for k in real_kw)
                     if not same:
-                        res.fail('mismatch', 'bound:' + name, '%s %s spelling %s: real bound %r %r, model %r %r' % (
+                        sink.fail('mismatch', 'bound:' + name, '%s %s spelling %s: real bound %r %r, model %r %r' % (
                             name, case['labels'], tag, real_pos, real_kw, mod_pos, mod_kw), case)
         res.traces += nb
         bump('bind-comparisons', nb)
+    if not replay or replay.get('kind') == 'arglist':
+        import props.c12args as c12args
+        c12args.run(env, res, hist)
     res.extra['histogram'] = hist
     return res
 
 
+
 LEVEL_TEXT = ('Lean 4: call_equiv, ext_both_ways, kind_exclusive, spelling_kw_move / spelling_default_move over the model of '
-              'translate_args / get_delegate for every well-formed definition (WFDef), and generated-table theorems '
-              'registry_wf, alias_convention (decide +kernel over all 284 registered definitions, regenerated per run). '
-              'Tie: every registered definition called through the real resolver in every spelling on typed corpus tuples '
-              '(same result / error class), and map_args/get_delegate of the real definition against the model per spelling.')
-LEVEL_NOTE = ('trusted: Lean kernel; Model/Types, Resolve, RegistryRow; the registry dump; the corpus. spelling_equiv is '
-              'proved per parameter move; the whole-vector statement (spelling_equiv_full) is not derived.')
-TECHNIQUE = 'Lean 4 proof + generated registry table (decide +kernel) + differential testing over the full registry'
+              'translate_args / get_delegate for every well-formed definition (WFDef); call_junk_invariant (= call_junk_invariant_full) / '
+              'call_resolver_input over the model of call()\'s keyword filter; toCamel_fixed / toCamel_idempotent / '
+              'camel_of_python over the model of the naming conventions; generated-table theorems registry_wf, '
+              'alias_convention, alias_convention_each, keyword_names_are_keywords, registered_names_converted (decide +kernel '
+              'over all 284 registered definitions as found in contexts of every convention, created in several orders in '
+              'fresh interpreters; regenerated per run). Tie: every registered definition called through the real resolver '
+              'in every spelling on typed corpus tuples (same result / error class) in contexts of every convention and '
+              'creation order, call() with extra non-keyword keys, map_args/get_delegate of the real definition against the '
+              'model per spelling, and the naming / filtering functions against the model.')
+LEVEL_NOTE = ('trusted: Lean kernel; Model/Types, Resolve, RegistryRow, Naming; the registry dump; the corpus. spelling_equiv is '
+              'proved per parameter move; the whole-vector statement (spelling_equiv_full) is not derived. '
+              'call_junk_invariant_full (keys that are no keywords, strings or not, never change call()) is proved for the '
+              'code since d6863d4.')
+TECHNIQUE = 'Lean 4 proof + generated registry tables (decide +kernel) + differential testing over the full registry'
 DESIGN_REF = 'DESIGN.md section 5, C12'
